@@ -57,6 +57,13 @@ def r_dense_indep(rep, f):
         carried = [k for k in hk.pre_state if not any(k == r or k.startswith(r + ".") for r in stat_roots)]
         # the stepper's configuration is read through `&self`: it cannot change, whatever a branch condition taught the
         # interpreter about it on one side of a join (a test of `self.dense_output && ..` refines the field's value there)
+        # ... and a scalar local that nothing in the loop assigns (a loop invariant hoisted in front of it) cannot change either
+        ml_ = hk.main_loop
+        if ml_ is not None:
+            touched = {a_["l"].get("id") for a_ in tast.find(ml_, lambda z: z.get("k") in ("Assign", "AssignOp") and z["l"].get("k") == "Path")}
+            touched |= {q.get("id") for a_ in tast.find(ml_, lambda z: z.get("k") == "AddrOf" and z.get("mut")) for q in tast.find(a_, lambda z: z.get("k") == "Path")}
+            import re as _re
+            carried = [k for k in carried if not _re.match(r"^\d+\.\d+$", str(k)) or k in touched or not isinstance(hk.pre_state.get(k), Poly)]
         p0 = (f.body(fn).get("params") or [{}])[0]
         if (p0.get("ty") or "").startswith("&") and not (p0.get("ty") or "").startswith("&mut"):
             carried = [k for k in carried if not str(sx.names.get(k, k)).startswith("self.")]
